@@ -81,6 +81,9 @@ func (e *c08Env) add(kind, detail string) {
 
 var errApply = errors.New("apply failed")
 
+// malformed event names: every one must be refused (nothing published, no listener)
+var c08BadNames = []string{"a.b", "", "a b", " a", "a ", "a*b", "*", "a>b", ">", "a?b", "\ta", "a\n", "a\x7fb", "é", "a\x00", ".", "a."}
+
 func jsonStr(v interface{}) string {
 	b, err := json.Marshal(v)
 	if err != nil {
@@ -257,7 +260,7 @@ func (e *c08Env) step(rs res.Resource, rq *res.Request, st c08Step) {
 		case "reserved":
 			rs.Event("change", nil)
 		case "invalid":
-			rs.Event("a.b", nil)
+			rs.Event(c08BadNames[int(mon.Now())%len(c08BadNames)], map[string]int{"x": 1})
 		case "nil":
 			rs.Event("ping", nil)
 		default:
